@@ -70,6 +70,18 @@ Definition dispatch (cmd : string) (args : list string) : string :=
               (* what run() reports for the statement: by C01_columns_exact_in_the_reported_table this is [final_table] *)
               ("reported", json_of_res json_of_pyval (Output.format "sql" false [Table.denote (String.eqb norm "1") t]))]
       end
+  | "tabc_spec", norm :: rest =>
+      match tablec_of_args rest with
+      | None => JObj [("unsupported", JStr "bad table-with-clauses args")]
+      | Some tc =>
+        let nb := String.eqb norm "1" in
+        JObj [("wf", JBool (Table.wf_c nb tc));
+              ("lexemes", JArr (map (fun lx => JArr [JStr (fst lx); JStr (snd lx)]) (Table.lexemes_c tc)));
+              ("denote", json_of_res (fun d => json_of_pyval (PDict d)) (Table.denote_c nb tc));
+              ("reported", match Table.denote_c nb tc with
+                           | Ok d => json_of_res json_of_pyval (Output.format "sql" false [PDict d])
+                           | _ => JObj [("unsupported", JStr "denote")] end)]
+      end
   | "alt_spec", norm :: rest =>
       match alter_of_args rest with
       | None => JObj [("unsupported", JStr "bad alter args")]
